@@ -185,6 +185,10 @@ var errorStoreExceptions = map[string]string{}
 func runC01(c *Ctx, r *Report) {
 	r.Rule("C01.R12", "forced-local binding is for `:=` and new frames: in package eval a binding call with the constant create == true is made only on an environment created in the same function (parameters, `..`, the function's own name), never on the running scope")
 	c.checkForcedCreateOnFreshFrames(r, "C01.R12")
+	r.Rule("C01.R13", "a builtin's parameter is evaluated once: no path of evalBuiltin evaluates an element of node.Parameters and then calls a function of the package that is handed the node and evaluates its parameters itself")
+	c.checkBuiltinParameterEvaluatedOnce(r, "C01.R13")
+	r.Rule("C01.R14", "reads happen left to right: the left operand's result passes object.Value before the right operand is evaluated; the function that evaluates an array literal's elements applies object.Value to each inside its loop")
+	c.checkReadsLeftToRight(r, "C01.R14")
 	r.Rule("C01.R1", "dispatch totality: every operator token the parser registers for infix expressions is compared against in the evaluator's operator dispatch, every prefix operator token in the prefix dispatch, and every node type the parser can build has an arm in evalInternal's type switch")
 	r.Rule("C01.R2", "precedence conformance: the weak order on operator tokens given by ast.Precedences equals the documented one (13 classes), and the infix parser parses its right operand at the operator's own precedence (left associativity)")
 	r.Rule("C01.R3", "short circuit: when the operator is && and the left operand is false (|| and true) the right operand is not evaluated: the true edge of those tests reaches only a return")
